@@ -27,14 +27,41 @@ def seeds_for(pid=None):
     return out
 
 
-def run_seed(name, ids):
+MUTANTS = os.path.join(VERIF, 'mutants')
+
+
+def mutants_for(pid=None):
+    """the author's own one-line mutants: (name, property, expectation 'caught' | 'silent')"""
+    out = []
+    if not os.path.isdir(MUTANTS):
+        return out
+    for name in sorted(os.listdir(MUTANTS)):
+        mp = os.path.join(MUTANTS, name, 'meta.json')
+        if os.path.exists(mp):
+            meta = json.load(open(mp))
+            if pid is None or meta['property'] == pid:
+                out.append((name, meta['property'], meta['expect']))
+    return out
+
+
+def run_mutant(name, pid, expect):
+    r = run_seed(name, [pid], base=MUTANTS)[pid]
+    if r.startswith('skipped'):
+        return r
+    if expect == 'silent':
+        return 'silent (as required: behaviour unchanged)' if r == 'MISSED' else 'FALSE-ALARM'
+    return r
+
+
+def run_seed(name, ids, base=None):
     """returns {id: 'caught' | 'MISSED' | 'skipped: …'}"""
+    base = base or SEEDS
     scratch = tempfile.mkdtemp(prefix='iref-selftest-')
     res = {}
     try:
         src = os.path.join(scratch, 'repo')
         subprocess.run(['rsync', '-a', '--exclude', 'target', '--exclude', '.git', REPO + '/', src + '/'], check=True)
-        r = subprocess.run(['patch', '-p1', '--batch', '--silent', '-i', os.path.join(SEEDS, name, 'patch.diff')], cwd=src, capture_output=True, text=True)
+        r = subprocess.run(['patch', '-p1', '--batch', '--silent', '-i', os.path.join(base, name, 'patch.diff')], cwd=src, capture_output=True, text=True)
         if r.returncode != 0:
             return {i: 'skipped: the seeded patch does not apply to the current tree' for i in ids}
         env = dict(os.environ)
@@ -53,6 +80,8 @@ def run_for(pid):
     out = {}
     for name, ids, meta in seeds_for(pid):
         out[name] = run_seed(name, [pid])[pid]
+    for name, p, expect in mutants_for(pid):
+        out['mutant ' + name] = run_mutant(name, p, expect)
     return out
 
 
@@ -66,4 +95,11 @@ if __name__ == '__main__':
         print(name, json.dumps(r))
         sys.stdout.flush()
         bad += sum(1 for v in r.values() if v == 'MISSED')
+    for name, pid, expect in mutants_for():
+        if only and not any(name.startswith(o) or o == pid for o in only):
+            continue
+        r = run_mutant(name, pid, expect)
+        print('mutant', name, pid, r)
+        sys.stdout.flush()
+        bad += int(r in ('MISSED', 'FALSE-ALARM'))
     sys.exit(1 if bad else 0)
